@@ -465,6 +465,10 @@ func (rn *runner) check(c *Case, idx uint64, nontrivial bool) error {
 	var canonV interface{}
 	json.Unmarshal(canon, &canonV)
 	res.Count(canonV, nontrivial)
+	if dir := os.Getenv("ZVH_C13_DUMP"); dir != "" {
+		// debugging aid: keep every case (e.g. to pick corpus cases)
+		os.WriteFile(filepath.Join(dir, fmt.Sprintf("%s-%d.json", c.Mode, idx)), canon, 0o644)
+	}
 	res.Hit("mode:" + c.Mode)
 	res.Hit("fault:" + c.Fault.Kind)
 	switch {
